@@ -130,6 +130,23 @@ var staticLikeNames = []string{"max", "min", "sqr", "abs", "sign"} // never stri
 // enclosing functions and in sibling scopes are deliberately reused (shadowing and
 // slot reuse).
 func (g *Gen) freshName(sc *Scope, label string) string {
+	if g.chance(15, "shadowVisible") {
+		// declare a name again that is visible from an enclosing function: an argument of
+		// the program, an outer let, func or parameter (legal: it is another function body)
+		var cand []string
+		seen := map[string]bool{}
+		for i := len(sc.Vars) - 1; i >= 0; i-- {
+			nm := sc.Vars[i].Name
+			if !seen[nm] && !sc.Frame[nm] {
+				cand = append(cand, nm)
+			}
+			seen[nm] = true
+		}
+		if len(cand) > 0 {
+			g.Stats["shadow_visible"]++
+			return cand[g.n(len(cand), label+"Shadow")]
+		}
+	}
 	pool := namePool
 	if g.C.ShadowStatics && g.chance(6, "staticName") {
 		pool = staticLikeNames
